@@ -12,6 +12,8 @@ def run(chk):
     for _ in range(160 if thorough else 44):
         n = rng.choice([2, 3, 4, 5])
         m = rng.randint(2, 12)      # the whole configured range for every dimension (beyond N*m = 52 the deepest digits of a double are zero, still on the grid)
+        if _ < 8:      # the extremes of the configured range are always covered
+            n, m = [(5, 12), (5, 11), (4, 12), (3, 12), (2, 12), (5, 2), (2, 2), (4, 11)][_]
         lo, hi = H.random_box(rng, n, nice=rng.random() < 0.5)
         if _ % 4 == 3:      # one very thin (or very wide) side: the grid scales with the box
             t = rng.randrange(n); a = rng.choice([1e-9, 0.0, 5.0, -2.0]); w = rng.choice([4e-9, 1e-7, 3e-6, 1e7])
